@@ -61,7 +61,18 @@ META["C01"] = {
     "technique": "explicit-state BFS over operation sequences with ledger/reference comparison + preemption-bounded schedule enumeration, on the implementation",
 }
 
-ENGINE_OF = {"C09": "sched", "C08": "seq", "C02": "seq+sched", "C04": "seq+sched", "C01": "seq+sched"}
+META["C06"] = {
+    "level": "model_checking",
+    "rule": "sequential: per rule configuration (general threshold 0/1/2, specific items A->0/1, B->2, value selected by index 0, index -1 or attachment key, second resource with its own rule) BFS over all histories of Entry(resource, value A/B/none) and Exit of any live entry (<=4 live, pool-miss deviations <=1) to the depth bound; every decision is compared with 'live(v) < threshold(v)', the per-value counters read through an accessor are compared with the true live count after EVERY operation, and each live entry's context must still carry the value it was admitted with; concurrent: all schedules with <=1 (quick) / <=2 (thorough) preemptions of 2-3 threads Entry(v)->Exit at atomic-access granularity with conservation bounds at every probe and zero at the end",
+    "assumptions": [A_CLOCK, A_OVERLAY, A_SHIM, "sync.Pool modelled as LIFO with an explicit miss answer (budget 1)", "under concurrency only conservation is asserted (the statement gives no k-1 allowance for the check-then-record window)"],
+    "budget_quick": 60,
+    "budget_thorough": 900,
+    "text": "Explicit-state exploration of per-value entry/exit histories through the real api.Entry with the private per-value counters observed after every step, plus preemption-bounded interleavings of concurrent lifecycles.",
+    "level_note": "Bounded depth (7 quick / 9 thorough), two values, two resources, capacity never exceeded.",
+    "technique": "explicit-state BFS over operation sequences with reference comparison + preemption-bounded schedule enumeration, on the implementation",
+}
+
+ENGINE_OF = {"C06": "seq+sched", "C09": "sched", "C08": "seq", "C02": "seq+sched", "C04": "seq+sched", "C01": "seq+sched"}
 
 # properties not claimed, with the reason (kept current)
 NOT_APPLICABLE = {}
